@@ -1297,8 +1297,8 @@ MUTANTS = [
     {"id": "rename-slew-locals", "group": "D", "expect": None,
      "edits": [(PID_TU, "ctrl_min", "lo", 5), (PID_TU, "ctrl_max", "hi", 5)]},
     {"id": "reorder-independent", "group": "D", "expect": None,
-     "edits": [(PID_TU, "    mjtNum error = ctrl - d->actuator_length[actuator_idx];\n\n    int state_idx = m->actuator_actadr[actuator_idx];\n",
-                "    int state_idx = m->actuator_actadr[actuator_idx];\n\n    mjtNum error = ctrl - d->actuator_length[actuator_idx];\n")]},
+     "edits": [(PID_TU, "    mjtNum error = ctrl - d->actuator_length[m->actuator_outadr[actuator_idx]];\n\n    int state_idx = m->actuator_actadr[actuator_idx];\n",
+                "    int state_idx = m->actuator_actadr[actuator_idx];\n\n    mjtNum error = ctrl - d->actuator_length[m->actuator_outadr[actuator_idx]];\n")]},
     {"id": "extract-clip-helper", "group": "F", "expect": None,
      "edits": [(PID_TU, "void Pid::ActDot(const mjModel* m, mjData* d, int instance) const {",
                 "static mjtNum ClipIntegral(const PidConfig& config, mjtNum x) {\n"
